@@ -190,6 +190,9 @@ def r1h(ctx):
     # the timestamp text is the WHOLE first header value: nothing cuts, trims or re-cases it before the ISO-8601 parser
     # (a decimal comma, an offset or a fraction is part of the instant)
     part = [c_ for c_ in ts.callee_names() if re.search(PARTIAL, c_)] + [t_["callee"] for _, t_ in ts.calls if re.search(r"ops::Index(Mut)?::index(_mut)?$", t_["callee"]) and "Range" in t_.get("resolved_full", "")]
+    rerender = [c_ for c_ in ts.callee_names() if not re.search(r"canonical::latin1_to_string$|HashMap::<K, V, S, A>::get$|ops::Deref::deref$|ops::Index::index$|Option::<T>::(expect|unwrap|or|or_else|map|and_then|ok_or\w*|unwrap_or\w*|as_ref|as_deref|cloned|copied|is_some|is_none)$|Vec::<T, A>::(first|get|as_slice)$|slice::<impl \[T\]>::(first|get)$|Clone::clone$|AsRef::as_ref$|Borrow::borrow$|ops::Try::branch$|FromResidual::from_residual$|String::(as_str|new|with_capacity)$|convert::(From::from|Into::into)$|Default::default$|mem::(take|replace|swap)$", c_) and not re.search(PARTIAL, c_)]
+    if rerender:
+        yield VIOL("C02-R1h", "from_header/timestamp/as-sent", "the date header's text is re-rendered or converted (%s) before the ISO-8601 parser sees it: another format is let in, and what is parsed is not what the client sent (an offset relabelled `Z` moves the instant and the scope date)" % sorted({c_.split("::")[-1] for c_ in rerender}), where=loc(ag[2]["span"]))
     if part or not ts.has_call(r"canonical::latin1_to_string$"):
         yield VIOL("C02-R1h", "from_header/timestamp/whole-value", "the date header value is not passed on whole (through %s): part of a well-formed timestamp (fraction after a decimal comma, offset) is cut off or altered" % (sorted(set(part)) or "something other than latin1_to_string"), where=loc(ag[2]["span"]))
     else:
